@@ -5,11 +5,28 @@
 From BR Require Import Base.Prelude Gen.Consts Net.NodeFSM Net.NodeProofs.
 Open Scope N_scope.
 
-(* every well-formed frame - any command, classic or extended, any length - is consumed to exactly
-   its declared length (header included), whatever the state of the node *)
-Theorem C14_consumed_exactly : forall s f, well_formed f = true -> consumed_code s f = consumed s f.
+(* for a verified (ready) peer, every well-formed frame - any command, classic or extended, any
+   length, whether a block is requested or not, with or without a tx manager - is consumed to
+   exactly its declared length, header(s) included.  The model says per handler how the payload is
+   taken: a length-limited read, a counted stream with a deferred discard of the remainder, a raw
+   read by item count (inv), or nothing at all (getaddr, which has no payload). *)
+Theorem C14_consumed_exactly : forall s f, n_ready s = true -> well_formed f = true ->
+  consumed_code s f = consumed s f.
 Proof. exact conformant_frame_consumed. Qed.
 Print Assumptions C14_consumed_exactly.
+
+(* in every other state as well, except headers before the handshake completed *)
+Theorem C14_consumed_exactly_gen : forall s f, well_formed f = true ->
+  (forall c fi a, f_msg f = MHeaders c fi a -> n_ready s = true \/ n_hs_complete s = true) ->
+  consumed_code s f = consumed s f.
+Proof. exact conformant_frame_consumed_gen. Qed.
+Print Assumptions C14_consumed_exactly_gen.
+
+(* observation D26, outside this property (the peer is not verified): such headers are not consumed *)
+Theorem C14_headers_before_handshake_desync : forall s f c fi a, n_ready s = false -> n_hs_complete s = false ->
+  f_msg f = MHeaders c fi a -> 0 < f_len f -> consumed_code s f < consumed s f.
+Proof. exact headers_before_handshake_desync. Qed.
+Print Assumptions C14_headers_before_handshake_desync.
 
 (* a ready node is stopped by a message only if the message violates the protocol: a second
    protoconf, a pong with the wrong nonce, or headers its repository refuses.  In particular no
